@@ -114,7 +114,7 @@ T == [advance |-> Advance, count |-> <<0, 0, 0, NB>>,
       dev |-> IF res = "total" THEN "total" ELSE IF res = "partial" THEN "partial"
               ELSE IF res = "fail" THEN "failure" ELSE "abandoned",
       code |-> IF res = "total" THEN 0 ELSE IF res = "partial" THEN 1 ELSE 2,   \* 2 stands for any error code
-      hascode |-> TRUE, coop |-> res \in {"total", "partial"}, lost |-> FALSE]
+      hascode |-> TRUE, coop |-> res \in {"total", "partial"}, lost |-> FALSE, badblk |-> 0]
 \* the relay clauses hold at every moment; the reply clauses at the end
 Relay == LET t == T IN
          /\ (pc # "init" => t.got.init = t.count)
